@@ -106,7 +106,7 @@ def _session_kwargs(e, opts):
     kw = {}
     if opts.get('retry'):
         kw['retry'] = opts['retry']
-    for flag in ('strict', 'immediate', 'serializable'):
+    for flag in ('strict', 'immediate', 'serializable', 'ddl'):
         if opts.get(flag):
             kw[flag] = True
     if opts.get('optimistic') is False:
